@@ -100,6 +100,24 @@ PROPS = {
         rule="enumeration: 256 first bytes x (3 versions x 2 bodies + 3 tails), 11 CBE version encodings x 6 bodies, 2 header letters x 10 version spellings x 7 bodies, versions 0..300 / 0..99; distinct by document bytes",
         trusted_base=COMMON_TB,
     ),
+    "C28": dict(
+        claim="Lean model of the CBE reader layer (io.Reader source with an arbitrary delivery schedule, cbe.readerAdapter, readIntoBuffer, ReadTypeOrEOF) and theorems, for every legal schedule (any short reads, (0,nil) reads short of 100 in a row, final bytes with or without io.EOF): a full read returns exactly the next n bytes, the byte stream seen by the decoder is the document followed by end-of-file, two arbitrary deliveries are indistinguishable. "
+              "Harness: valid, bit-flipped and truncated CBE and CTE documents through one-byte, short, mixed and zero-length-read readers with and without data+EOF, via UnmarshalCBE/CTE/CE and the three Decoder.Decode entry points; value, events and error-ness must equal the in-memory result",
+        note="Modelled, not verified: that every byte access of the CBE decoder (and of the uleb128/compact-float/compact-time helpers) goes through the adapter; CTE (io.Copy) and the universal path (bufio) rely on the standard library's handling of the io.Reader contract. Trusted: Lean kernel, the correspondence harness",
+        level="proof", n_quick=400, n_thorough=20000, shards=16,
+        lean_modules=["CE.Props.C28", "CE.Io.ReaderProofs"],
+        rule="per case 5 documents (valid/bitflip/truncated CBE, valid/truncated CTE) x 3 random delivery patterns x 5 entry points; distinct by document bytes",
+        trusted_base=COMMON_TB,
+    ),
+    "C29": dict(
+        claim="theorems: a source failing with a non-EOF error after k bytes (any k, error delivered with or without the preceding bytes, any legal schedule) makes byte-wise reading yield the k bytes and then the failure - never end-of-file - and a full read needing more than k bytes fail; a destination that stops accepting bytes before the document is complete always yields the error, whatever the division into Write calls. "
+              "Harness: a single injected write failure at every byte offset (short and zero-length failing writes) for MarshalCBE/MarshalCTE and both event-level encoders, and a single injected read failure at every offset (with and without data) for UnmarshalCBE/CTE/CE and the three Decoder.Decode entry points, over generated values and documents: the call must return an error and no panic may escape",
+        note="Modelled, not verified: the deferred recover of the entry points and that all writes go through writeBytes/WriteString. Trusted: as C28",
+        level="proof", n_quick=60, n_thorough=3000, shards=16, timeout_quick=900,
+        lean_modules=["CE.Props.C29", "CE.Io.FaultProofs", "CE.Io.Writer"],
+        rule="every failure offset of every generated document/value (fault_enumeration style); non-trivial = a fault position strictly inside the data",
+        trusted_base=COMMON_TB,
+    ),
 }
 
 NOT_APPLICABLE = {}
